@@ -438,6 +438,17 @@ def canon(line):
     return " | ".join(parts)
 
 
+def split_dump(dump):
+    """(draws, dump without `stale=`/`draws=`), draws None if the harness could not recover them."""
+    t = dump.split()
+    if len(t) < 7 or not t[6].startswith("draws=") or not t[5].startswith("stale="):
+        return None, dump
+    n = int(t[6].split("=")[1])
+    if n < 0:
+        return None, dump
+    return t[7:7 + n], " ".join(t[:5] + t[7 + n:])
+
+
 def injection_script(script, out):
     """driver input for the GNAT kinds: each query runs on the tree dumped after the previous op; every
     dump is re-read (`tree …`) to evaluate the invariant and the model's list().
@@ -457,6 +468,13 @@ def injection_script(script, out):
                 r = r.split()[0]
             drv.append(line)
             exp.append((i, "query", r))
+        if op in ("add", "addv", "rm", "clear"):
+            # lock-step: the model's operation on the previously injected state, with this operation's
+            # k-centers draws, must produce exactly the dump of the real tree
+            draws, plain = split_dump(parts[2])
+            if draws is not None:
+                drv.append("mop %d %s %s" % (len(draws), " ".join(draws), line) if draws else "mop 0 " + line)
+                exp.append((i, "op", parts[0] + " | " + plain))
         st = parts[1].split()
         drv.append("tree " + parts[2])
         exp.append((i, "tree", "inv=ok size=%s live=%s %s" % (st[0].split("=")[1], st[0].split("=")[1], " ".join(st[1:]))))
@@ -482,7 +500,7 @@ def correspondence(ck, script, out):
     for j, (i, what, want) in enumerate(exp):
         got = model[j] if j < len(model) else "<missing>"
         if got != want:
-            return (i, "model %s on the dumped real tree differs" % ("query" if what == "query" else "invariant/list"), got, want)
+            return (i, "model %s differs" % {"query": "query on the dumped real tree", "op": "operation (lock-step from the previous dump)"}.get(what, "invariant/list on the dumped real tree"), got, want)
     return None
 
 
@@ -565,6 +583,11 @@ def judge(ck, hbin, script, tag, lock):
         if kv["kind"].startswith("gnat"):
             ck.count("gnat:realloc-prone-params" if realloc_prone(kv) else "gnat:safe-params")
             ck.count("gnat:dumps-inv-checked", len(out))
+            if corr is None and res["fail"] is None:
+                ck.count("gnat:ops-lockstep-model-vs-real-dump",
+                         sum(1 for ln, o in zip(script[1:], out) if ln.split()[0] in ("add", "addv", "rm", "clear") and o.count(" | ") >= 2))
+                ck.count("gnat:ops-lockstep-with-split-or-rebuild",
+                         sum(1 for o in out if o.count(" | ") >= 2 and " draws=0" not in o.split(" | ")[2][:80]))
             if res["internal"]:
                 ck.count("gnat:scripts-with-internal-nodes")
         ck.sample({"generator": tag, "script": script[:8] + ["…(%d more lines)" % (len(script) - 8)]})
@@ -654,7 +677,7 @@ def run(ck):
                "if it queries a structure holding >= 4 elements (GNAT: and the tree has an internal node); distinct by script text")
     ck.trusted += ["harness/nn.cpp opens `private`/`protected` of the NN headers for its own translation unit to dump tree_, removed_, offset_ and the k-centers RNG state",
                    "model abstractions: element ids instead of addresses, stable merge sort instead of std::sort, Option for +-infinity, sorted lists for the two priority queues",
-                   "GNAT add/split/remove/rebuild are not modelled in lock-step: GnatInv and the abstraction are *checked on every dump* of the real tree instead of proved preserved"]
+                   "GNAT add/split/remove/rebuild/clear are modelled (Model/NNGnatOps.lean) and compared in lock-step: the model's operation on the previous dump, fed the k-centers draws of the real operation, must reproduce the next dump token for token; that they preserve GnatInv is additionally *checked on every dump* (see notes/C10.md for which preservation theorems are proved)"]
     ck.assumptions += ["the distance function is a metric (integer valued in the runs, so doubles are exact)",
                        "nearest() on an empty structure throws (outside the answer contract); points of the tabulated metric are 0..5"]
     ck.lean_build(LEAN_TARGETS)
